@@ -42,28 +42,32 @@ theorem C07_accepted_cache_agrees (nst : Nat) (dirs : List DirEnt) (h : List WCm
   have hn : (runHistory (World.init nst dirs) h).nst = nst := history_nst _ h
   exact accepts_agree hinv hc (by rw [hn]; exact hs) ha
 
-/-- **C07, native-flavor queries** (`C07_agree_partial`; hypothesis: the query concerns the native flavor of
-the querying process — the excluded class is D16).  After every history, what a fresh process of any user `u`
-and flavor `self` holds in memory for the declarations and tags of flavor `self`, in every stack of the path,
-is what the files say. -/
-theorem C07_agree_partial (nst : Nat) (dirs : List DirEnt) (h : List WCmd) (u : User) (self : Flav)
-    (s : Nat) (hs : s < (runHistory (World.init nst dirs) h).nst) :
-    AgreeOn (viaCache (runHistory (World.init nst dirs) h) u self) (runHistory (World.init nst dirs) h).db s self :=
-  (load_inv (history_inv nst dirs h) u self).2 s hs
+/-- **C07.**  After every history, what a fresh process of any user `u` and flavor `self` holds in memory after
+`Eups.__init__` — accepted cache files or rebuilt stacks — is what the files say, for every flavor the process can
+see (its native flavor and the fallback flavor), in every stack of the path; and it shows no declaration that the
+files do not hold. -/
+theorem C07_agree (nst : Nat) (dirs : List DirEnt) (h : List WCmd) (u : User) (self : Flav)
+    (s : Nat) (hs : s < (runHistory (World.init nst dirs) h).nst) (f : Flav) (hf : f ∈ fallbacks self) :
+    AgreeOn (viaCache (runHistory (World.init nst dirs) h) u self) (runHistory (World.init nst dirs) h).db s f ∧
+    ∀ d ∈ (viaCache (runHistory (World.init nst dirs) h) u self).decls,
+      d ∈ (runHistory (World.init nst dirs) h).db.decls := by
+  obtain ⟨_, hv, hfb, hsub⟩ := load_inv (history_inv nst dirs h) u self
+  exact ⟨hv s hs f (hfb s hs f hf), hsub⟩
 
-/-- **The four queries of the property, native flavor** (`self`), any user, any stack of the path, after any
-history: *is (n, v) declared*, *where is it* (the declaration found: directory and table), *which tags does it
-carry*, *which version has tag t* — through the cache and through the files. -/
-theorem C07_queries_agree_partial (nst : Nat) (dirs : List DirEnt) (h : List WCmd) (u : User) (self : Flav)
-    (s : Nat) (hs : s < (runHistory (World.init nst dirs) h).nst) (n : Name) (v : Ver) (t : Tag) :
+/-- **The four queries of the property**, any user, any stack of the path, any flavor `f` the querying process
+can see, after any history: *is (n, v) declared*, *where is it* (the declaration found: directory and table),
+*which tags does it carry*, *which version has tag t* — through the cache and through the files. -/
+theorem C07_queries_agree (nst : Nat) (dirs : List DirEnt) (h : List WCmd) (u : User) (self : Flav)
+    (s : Nat) (hs : s < (runHistory (World.init nst dirs) h).nst) (f : Flav) (hf : f ∈ fallbacks self)
+    (n : Name) (v : Ver) (t : Tag) :
     let w := runHistory (World.init nst dirs) h
-    (viaCache w u self).hasDecl s n v self = w.db.hasDecl s n v self ∧
-    (viaCache w u self).findDecl s n v self = w.db.findDecl s n v self ∧
-    (∀ d : Decl, d.stack = s → d.flav = self → d.name = n →
+    (viaCache w u self).hasDecl s n v f = w.db.hasDecl s n v f ∧
+    (viaCache w u self).findDecl s n v f = w.db.findDecl s n v f ∧
+    (∀ d : Decl, d.stack = s → d.flav = f → d.name = n →
         ∀ t', t' ∈ (viaCache w u self).tagsOf d ↔ t' ∈ w.db.tagsOf d) ∧
-    (viaCache w u self).tagVer s t n self = w.db.tagVer s t n self := by
+    (viaCache w u self).tagVer s t n f = w.db.tagVer s t n f := by
   intro w
-  have hag := C07_agree_partial nst dirs h u self s hs n
+  have hag := (C07_agree nst dirs h u self s hs f hf).1 n
   have hku := (history_inv nst dirs h).dbinv.ku
   refine ⟨hag.hasDecl v, findDecl_agree hag hku v, ?_, tagVer_agree hag hku t⟩
   intro d h1 h2 h3 t'
@@ -78,17 +82,24 @@ theorem C07_queries_agree_partial (nst : Nat) (dirs : List DirEnt) (h : List WCm
 
 /-! ### a missing, older or crash-orphaned cache is rebuilt, not believed -/
 
-/-- missing cache file: the in-memory stack is rebuilt from the database (`refreshFromDatabase`) -/
+/-- a needed cache file is missing (the native flavor's or the fallback flavor's): the in-memory stack is rebuilt
+from the database (`refreshFromDatabase`) -/
 theorem C07_stale_cache_rebuilt_missing (w : World) (u : User) (self : Flav) (s : Nat)
-    (h : w.findCache u s self = none) : (loadStack w u self s).view = snapshot w.db s := by
+    (h : findCaches w u s (needed self) = none) : (loadStack w u self s).view = snapshot w.db s := by
   unfold loadStack; simp [h]
 
-/-- cache file older than a version file, chain file or product directory of the stack, or naming other
-products than the database: rebuilt -/
-theorem C07_stale_cache_rebuilt_older (w : World) (u : User) (self : Flav) (s : Nat) (cf : CacheFile)
-    (h : w.findCache u s self = some cf) (hold : accepts w cf = false) :
+/-- one of the cache files is older than a version file, chain file or product directory of the stack, or names a
+product the database does not have: rebuilt -/
+theorem C07_stale_cache_rebuilt_older (w : World) (u : User) (self : Flav) (s : Nat) (cfs : List CacheFile)
+    (h : findCaches w u s (needed self) = some cfs) (cf : CacheFile) (hcf : cf ∈ cfs) (hold : accepts w cf = false) :
     (loadStack w u self s).view = snapshot w.db s := by
-  unfold loadStack; simp [h, hold]
+  unfold loadStack
+  have : cfs.all (accepts w) = false := by
+    rw [Bool.eq_false_iff]
+    intro hall
+    have := List.all_eq_true.mp hall cf hcf
+    rw [hold] at this; cases this
+  simp [h, this]
 
 /-- a rebuilt stack is the database: every flavor of the stack, exactly -/
 theorem C07_rebuilt_is_database (db : Spec) (hdb : NoDangling db) (s : Nat) (f : Flav) :
@@ -137,19 +148,23 @@ theorem C07_stale_tag_witness :
     ((viaCache wp 0 L).tagVer 0 current p L = some [49] ∧ wp.db.tagVer 0 current p L = none) ∧
     ((viaCache wf 0 L).tagVer 0 current p L = none ∧ wf.db.tagVer 0 current p L = none) := by decide
 
-/-- **D16 (open).**  `declare p 1` by a Linux process, `declare p 1` by a generic process, one Linux query (it
-rebuilds and saves both flavors): the next fresh Linux process accepts the cache, loads the native flavor only
-and does not see the `generic` declaration that the files hold.  The unrestricted `C07_agree` is false. -/
+/-- **D16 (repaired).**  On the pinned tree — fallback flavors installed after the cache was read, `save` of the
+native flavor only — `declare p 1` by a Linux process, `declare p 1` by a generic process, one Linux query (it
+rebuilds and saves both flavors): the next fresh Linux process accepts the cache, loads the native flavor only and
+does not see the `generic` declaration that the files hold.  With the repair it loads both and sees it. -/
 theorem C07_fallback_flavor_witness :
-    let w := runHistory (World.init 1 dirs)
-      [.run 0 (declareCmd L [49]) none, .run 0 (declareCmd generic [49]) none, .run 0 (.query L) none]
-    (viaCache w 0 L).hasDecl 0 p [49] generic = false ∧ w.db.hasDecl 0 p [49] generic = true ∧
-    ((load w 0 L).2.1 = [[L]]) := by decide
+    let h : List WCmd := [.run 0 (declareCmd L [49]) none, .run 0 (declareCmd generic [49]) none, .run 0 (.query L) none]
+    let wp := h.foldl stepPinnedD16 (World.init 1 dirs)
+    let wf := runHistory (World.init 1 dirs) h
+    ((viaCachePinnedD16 wp 0 L).hasDecl 0 p [49] generic = false ∧ wp.db.hasDecl 0 p [49] generic = true ∧
+      (loadPinned wp 0 L).2.1 = [(0, [L])]) ∧
+    ((viaCache wf 0 L).hasDecl 0 p [49] generic = true ∧ wf.db.hasDecl 0 p [49] generic = true ∧
+      (load wf 0 L).2.1 = [(0, [L, generic])]) := by decide
 
 /-! ### non-vacuity -/
 
-/-- the hypotheses of `C07_accepted_cache_agrees` are met by a real cache file: after `declare p 1` the
-user's Linux cache of stack 0 exists and is accepted -/
+/-- the hypotheses of `C07_accepted_cache_agrees` are met by real cache files: after `declare p 1` the user's Linux
+and generic caches of stack 0 exist and are accepted -/
 example :
     let w := runHistory (World.init 1 dirs) [.run 0 (declareCmd L [49]) none]
     (w.caches.any fun cf => cf.stack == 0 && accepts w cf) = true := by decide
